@@ -57,4 +57,22 @@ def addVerify (H : Algo → Bytes → Digest) (localClass : Bool) (name : Algo) 
   let st1 := if st0.contains oid then st0 else st0.set oid { data, prot := false, stamp := s }
   check H localClass name db0 st1 oid
 
+/-- one object of `add(paths, fs, oids, check_exists=False)` (how `transfer()` adds) without verification: `src = none` -
+    the copy fails (source gone, unreadable, upload error) and is reported through `on_error`: whatever sits at that path
+    is neither protected nor recorded in the hash state (F21). Otherwise the bytes arrive under a fresh stamp replacing what
+    is there, are protected in a local store, and the name is recorded for them. -/
+def addOne (localClass : Bool) (name : Algo) (acc : List Oid × Store × Db) (x : Oid × Option (Bytes × Stamp)) :
+    List Oid × Store × Db :=
+  let (failed, st, db) := acc
+  match x.2 with
+  | none => (failed ++ [x.1], st, db)
+  | some (data, s) =>
+    let st1 := st.set x.1 { data, prot := localClass, stamp := s }
+    (failed, st1, State.save db (fsOf st1) x.1 name x.1)
+
+/-- the batch: returns the oids reported as failed -/
+def addBatch (localClass : Bool) (name : Algo) (db : Db) (st : Store) (xs : List (Oid × Option (Bytes × Stamp))) :
+    List Oid × Store × Db :=
+  xs.foldl (addOne localClass name) ([], st, db)
+
 end DvcData.Store
